@@ -338,6 +338,9 @@ def tasks(tier, seed):
     T.append(("h_compose", {"sp": list(sp), "sq": list(sq)}))
   cals = [((0, 1, 2), (0, 1)), ((-2, 0, 3), (1,)), ((-1, 0, 1), (0, 2)), ((0, 1), (-1, 2)), ((3,), (0, 1))]
   if big: cals += [((0, 1, 2, 3), (0, 1, 2)), ((-2, -1, 0, 1), (0, 1))]
+  # powers need not be integers for the calculus rules (x**.5): exact halves
+  H = Fraction(1, 2)
+  cals += [((H, 2), (0, 1)), ((3 * H,), (H,)), ((-H, H, 1), (1,))]
   for sp, sq in cals:
     T.append(("h_calculus", {"sp": list(sp), "sq": list(sq)}))
   for n in ((1, 2, 3, 4) if big else (1, 2, 3)):
